@@ -422,10 +422,10 @@ func runC04(c *Ctx) {
 
 	// ---- basic requests (types 1, 2), inner, type 3, type 5 ----
 	type reqKind struct {
-		name string
-		mk   func() []byte        // a valid encoding
-		dec  func([]byte) []byte  // decode with a fresh object; nil if rejected, else its Marshal()
-		hot  []int
+		name  string
+		mk    func() []byte       // a valid encoding
+		dec   func([]byte) []byte // decode with a fresh object; nil if rejected, else its Marshal()
+		hot   []int
 		fresh func([]byte) []byte // decode, copy the fields into a newly constructed value, Marshal that
 	}
 	kinds := []reqKind{
